@@ -64,10 +64,85 @@ pub fn check(case: &Case) -> CheckResult {
 
 const CLASSES: &[&str] = &["pocket", "suited", "offsuit", "given_in_descending_order"];
 
+/// Pairs the library builds itself (token / rank-pair expansion, parsing) must be in the same
+/// canonical form as CardPair::new gives, otherwise "a range keyed by pairs" can hold a combo twice.
+pub fn canonical(p: &CardPair, origin: &str) -> Result<(), Fail> {
+    let (a, b) = (cid_of(&p[0]), cid_of(&p[1]));
+    let n = CardPair::new(p[0], p[1]);
+    if !(a < b) || n != *p || h_default(&n) != h_default(p) || h_fx(&n) != h_fx(p) {
+        return Err(Fail::new(
+            "non-canonical-pair",
+            format!("{} yields the pair [{:?}, {:?}] which is not in canonical form (first element must be the card that orders first; CardPair::new of the same cards gives {:?}, equal: {})", origin, p[0], p[1], n, n == *p),
+        ));
+    }
+    Ok(())
+}
+
+/// Every pair obtained from a well-formed token, in both spellings, is canonical, and a range
+/// parsed from the token followed by its mirrored spelling holds every combo once.
+pub fn check_token_pairs(t: &crate::notation::Tok) -> CheckResult {
+    use crate::notation::Tok;
+    let text = t.text();
+    let mirrored = match *t {
+        Tok::Pair(s, x, y) => Some(Tok::Pair(s, y, x).text()),
+        Tok::Combo(a, b) => Some(Tok::Combo(b, a).text()),
+        _ => None,
+    };
+    let Ok(tok) = text.parse::<espada::hand_range::HandRangeToken>() else {
+        return Ok(Outcome::default()); // C05's subject
+    };
+    let mut n = 0usize;
+    for (p, _) in tok {
+        canonical(&p, &format!("expanding the token {:?}", text))?;
+        n += 1;
+    }
+    let want = t.combos().len();
+    let list = match &mirrored {
+        Some(m) => format!("{},{}:0.5,{}", text, m, text),
+        None => format!("{},{}:0.5", text, text),
+    };
+    if let Ok(r) = list.parse::<HandRange>() {
+        for (p, _) in &r {
+            canonical(p, &format!("parsing the range {:?}", list))?;
+        }
+        vensure!(r.card_pairs().len() == want, "range-holds-combo-twice", "range {:?} holds {} entries for {} distinct combos", list, r.card_pairs().len(), want);
+        // decomposition views are keyed by pairs as well
+        for (p, _) in r.orphan_card_pairs().iter() {
+            canonical(p, &format!("orphan_card_pairs() of {:?}", list))?;
+        }
+    }
+    let _ = n;
+    Ok(Outcome::new(true, hash_str(&text), if mirrored.is_some() { 16 } else { 32 }))
+}
+const TOKEN_CLASSES: &[&str] = &["", "", "", "", "token_with_mirrored_spelling", "other_token"];
+
+/// RankPair values built through the API in either rank order
+pub fn check_rank_pair(c: &(u8, u8, u8)) -> CheckResult {
+    use espada::hand_range::RankPair;
+    let (kind, x, y) = *c;
+    let rp = match kind {
+        0 => RankPair::Pocket(e_rank(x)),
+        1 => RankPair::Suited(e_rank(x), e_rank(y)),
+        _ => RankPair::Ofsuit(e_rank(x), e_rank(y)),
+    };
+    let mut seen = std::collections::BTreeSet::new();
+    for p in rp {
+        canonical(&p, &format!("expanding {:?}", rp))?;
+        vensure!(seen.insert(pair_ids(&p)), "rank-pair-duplicate", "{:?} yields {:?} twice", rp, p);
+    }
+    let want = match kind {
+        0 => 6,
+        1 => 4,
+        _ => 12,
+    };
+    vensure!(seen.len() == want, "rank-pair-count", "{:?} yields {} combos", rp, seen.len());
+    Ok(Outcome::new(true, (kind as u64) << 16 | (x as u64) << 8 | y as u64, 1 << kind))
+}
+
 pub fn run(ctx: &mut Ctx) {
-    ctx.rule = "complete enumeration of the 52 x 51 ordered pairs of distinct cards; each case checks equality, two hashers, canonical element order, text round trip, both text orders, and single-entry ranges; all cases non-trivial and distinct by construction".into();
+    ctx.rule = "complete enumeration of the 52 x 51 ordered pairs of distinct cards; each case checks equality, two hashers, canonical element order, text round trip, both text orders, and single-entry ranges; all cases non-trivial and distinct by construction. Consequence clause ('a range keyed by pairs can never hold the same combo twice'): every pair the library builds itself - expansion of all 3,796 well-formed tokens, of all 13+156+156 RankPair values in either rank order, ranges parsed from a token followed by its mirrored spelling, the leftover view - must be in the canonical form of CardPair::new, and such a range must hold each combo once".into();
     ctx.assumptions = vec!["'orders first' is the (rank ace..deuce, suit s,h,d,c) order of C13".into()];
-    ctx.exhaustive = true;
+    ctx.exhaustive = env_scale() >= 1.0;
     let n = 52 * 51u64;
     ctx.run_enum_brief(
         StreamCfg::new("ordered_pairs", CLASSES, n),
@@ -84,8 +159,31 @@ pub fn run(ctx: &mut Ctx) {
         check,
         |c| serde_json::json!(format!("new({}, {})", cname(c.0), cname(c.1))),
     );
+    run_library_built_pairs(ctx);
 }
 
-pub fn replay(_stream: &str, path: &str, case: &Value) -> i32 {
-    replay_case::<Case>("C14", path, case, check)
+pub fn run_library_built_pairs(ctx: &mut Ctx) {
+    let toks = crate::notation::all_tokens();
+    let n = toks.len() as u64;
+    ctx.run_enum_brief(StreamCfg::new("pairs_from_tokens", TOKEN_CLASSES, n), n, true, |i| toks[i as usize].clone(), check_token_pairs, |t| serde_json::json!(t.text()));
+    let mut rps: Vec<(u8, u8, u8)> = (0..13).map(|r| (0u8, r, r)).collect();
+    for k in 1..3u8 {
+        for x in 0..13 {
+            for y in 0..13 {
+                if x != y {
+                    rps.push((k, x, y));
+                }
+            }
+        }
+    }
+    let n = rps.len() as u64;
+    ctx.run_enum_brief(StreamCfg::new("pairs_from_rank_pairs", CLASSES, n), n, true, |i| rps[i as usize], check_rank_pair, |c| serde_json::json!(format!("kind {} ranks {} {}", c.0, RANK_CH[c.1 as usize], RANK_CH[c.2 as usize])));
+}
+
+pub fn replay(stream: &str, path: &str, case: &Value) -> i32 {
+    match stream {
+        "pairs_from_tokens" => replay_case::<crate::notation::Tok>("C14", path, case, check_token_pairs),
+        "pairs_from_rank_pairs" => replay_case::<(u8, u8, u8)>("C14", path, case, check_rank_pair),
+        _ => replay_case::<Case>("C14", path, case, check),
+    }
 }
